@@ -449,6 +449,12 @@ func (w *vfc18World) loopCase(r *vfutil.Rand, mode config.ReplayMode, fbB, fbC s
 	for nAcc < len(txns) && txns[nAcc].accept {
 		nAcc++
 	}
+	// lanes of the parallel mode: 1 / 2 / 3 / many, and 0 = "ask the cluster" (no shards configured and the double does not
+	// answer CLUSTER SHARDS: bisyncPipelineWorkerCount falls back to one lane)
+	lanes := vfutil.Pick(r, []int{0, 1, 2, 2, 3, 16})
+	replay["lanes"] = lanes
+	s.Count(fmt.Sprintf("cfg_parallelism_%d", lanes))
+	s.Count("cfg_replay_mode_" + string(mode))
 	// one attempt = fresh output, own run id (blocks and the armed fault are matched by it)
 	attempt := func(hard time.Duration) (blocks []vfc18Block, stray int, err error, stalled bool) {
 		w.loopSeq++
@@ -459,7 +465,7 @@ func (w *vfc18World) loopCase(r *vfutil.Rand, mode config.ReplayMode, fbB, fbC s
 			cl = w.newCluster(fmt.Sprintf("%s#%d", fbC, w.privSeq), 0) // MOVED rewrites the client's slot map: private client
 		}
 		ro := NewRedisOutput(RedisOutputConfig{InputName: "in-1", CheckpointName: w.cp, BisyncEnabled: true, BatchCmdCount: 8,
-			Redis: config.RedisConfig{Type: config.RedisTypeCluster}, ReplayMode: mode, Parallelism: 2, TargetDb: -1})
+			Redis: config.RedisConfig{Type: config.RedisTypeCluster}, ReplayMode: mode, Parallelism: lanes, TargetDb: -1})
 		var opened, closed atomic.Int64
 		ro.newRedisConn = func(ctx context.Context) (client.Redis, error) {
 			if fbB == "connfail" && ctx.Done() == nil {
@@ -809,7 +815,7 @@ func (c vfc18RdbCase) replay() map[string]interface{} {
 func (w *vfc18World) rdbCases(r *vfutil.Rand, n int) {
 	tags := [][]byte{[]byte("a"), []byte("user:1"), {0xff, 0x01}, []byte("t")}
 	for i := 0; i < n; i++ {
-		c := vfc18RdbCase{Replace: r.Bool(), KeyExists: vfutil.Pick(r, []string{"replace", "ignore", ""}), Restore: r.Bool(),
+		c := vfc18RdbCase{Replace: r.Bool(), KeyExists: vfutil.Pick(r, []string{"replace", "replace", "ignore", "", "", "error"}), Restore: r.Bool(),
 			Key: vfc18Key(r, vfutil.Pick(r, tags)), FirstBin: r.Chance(3, 4), Splited: r.Chance(1, 4), Expire: r.Chance(1, 3),
 			Kind: vfutil.Pick(r, []int{rdb.RdbObjectString, rdb.RdbObjectHash, rdb.RdbObjectList, rdb.RdbObjectZSet})}
 		c.CanRestore = c.Restore && r.Bool()
@@ -832,6 +838,9 @@ func (w *vfc18World) rdbCases(r *vfutil.Rand, n int) {
 func (w *vfc18World) rdbCase(c vfc18RdbCase, i int) {
 	s := w.s
 	key := c.Key
+	s.Count(fmt.Sprintf("cfg_replaceHashTag_%v", c.Replace))
+	s.Count("cfg_keyExists_" + map[bool]string{true: "default", false: c.KeyExists}[c.KeyExists == ""])
+	s.Count(fmt.Sprintf("cfg_replayRdbEnableRestore_%v", c.Restore))
 	p := &vfc18RdbParser{otype: c.Kind, firstBin: c.FirstBin, splited: c.Splited, canRestore: c.CanRestore, key: key}
 	for j := 0; j < c.N; j++ {
 		el := []byte(fmt.Sprintf("e%d", j))
